@@ -286,7 +286,19 @@ func TestC37(t *testing.T) {
 							nd.Chain.BestBlockHeader()
 							nd.Chain.BestBlockHeight()
 						case 1:
-							nd.Chain.GetHeaderByHeight(uint64(fr.Intn(30)))
+							// as the sync layer answers get-headers / get-block: read and serialise
+							if h, err := nd.Chain.GetHeaderByHeight(uint64(fr.Intn(30))); err == nil {
+								h.MarshalText()
+							}
+							if cps := tr.Checkpoints(); len(cps) > 0 {
+								ch := cps[fr.Intn(len(cps))].Hash
+								if h, err := nd.Chain.GetHeaderByHash(&ch); err == nil {
+									h.MarshalText()
+									for _, l := range h.SupLinks {
+										_ = l.IsMajority(4)
+									}
+								}
+							}
 						case 2:
 							nd.Chain.InMainChain(tr.All[fr.Intn(len(tr.All))].Hash)
 						case 3:
@@ -301,7 +313,9 @@ func TestC37(t *testing.T) {
 						case 6:
 							nd.Chain.VerifCasper().VerifTree()
 							h := tr.All[fr.Intn(len(tr.All))].Hash
-							nd.Chain.GetBlockByHash(&h)
+							if b, err := nd.Chain.GetBlockByHash(&h); err == nil {
+								b.MarshalText()
+							}
 						}
 					})
 					time.Sleep(time.Duration(100+fr.Intn(400)) * time.Microsecond)
